@@ -930,9 +930,54 @@ def run_postlex_reset(ctx: Ctx) -> RuleResult:
                             if not ok:
                                 res.finding(proc, st, 'process() resets %s to %s but a fresh object starts with %s' % (
                                     t.attr, norm(st.value), init_vals[t.attr]))
+        # a field that is updated in place (append / pop / += on a container) must be reset to a *fresh* object: a display or a
+        # constructor call, never a shared one (class attribute, module constant) -- or every stream, and every object, appends
+        # to the same list
+        inplace: Set[str] = set()
+        for m in k.swept_methods():
+            msn = m.self_name()
+            for n in m.body_nodes():
+                if isinstance(n, ast.Call) and isinstance(n.func, ast.Attribute) and n.func.attr in MUTATORS \
+                        and isinstance(n.func.value, ast.Attribute) and isinstance(n.func.value.value, ast.Name) and n.func.value.value.id == msn:
+                    inplace.add(n.func.value.attr)
+        for fn_ in [proc] + ([init] if init is not None else []):
+            fsn = fn_.self_name()
+            for st in fn_.body_nodes():
+                if isinstance(st, ast.Assign):
+                    for t in st.targets:
+                        if isinstance(t, ast.Attribute) and isinstance(t.value, ast.Name) and t.value.id == fsn and t.attr in inplace:
+                            fresh = isinstance(st.value, (ast.List, ast.Dict, ast.Set, ast.ListComp, ast.DictComp, ast.SetComp)) or (
+                                isinstance(st.value, ast.Call) and isinstance(st.value.func, ast.Name) and st.value.func.id in (
+                                    'list', 'dict', 'set', 'deque', 'copy', 'deepcopy'))
+                            res.ob('%s %s' % (fn_.module.loc(st), fn_.qual), '%s, which is updated in place, is (re)initialised with a fresh object' % t.attr, fresh)
+                            if not fresh:
+                                res.finding(fn_, st, '%s is updated in place while streaming but is initialised from %s, an object that is not created '
+                                            'here: all streams (and all objects of the class) then modify one shared container' % (t.attr, norm(st.value)),
+                                            construct='shared-initial:%s' % t.attr)
         res.tables[k.qual] = {'reset': sorted(reset), 'written_while_streaming': sorted(written)}
         if len(written) < 1:
             res.notes.append('%s writes no state while streaming' % k.qual)
+    # the post-lexer sees every stream: where the library applies it, the only condition is that there is one
+    from ..exprs import path_conditions
+    n_apply = 0
+    for fq in ('lark.lark:Lark.lex', 'lark.parser_frontends:PostLexConnector.lex'):
+        if not repo.has_func(fq):
+            continue
+        f = repo.func(fq)
+        for c in f.body_nodes():
+            if isinstance(c, ast.Call) and isinstance(c.func, ast.Attribute) and c.func.attr == 'process' and 'postlex' in norm(c.func.value):
+                n_apply += 1
+                conds = path_conditions(enclosing_stmt(c))
+                parts = []
+                for t, pol in conds:
+                    parts += list(t.values) if (pol and isinstance(t, ast.BoolOp) and isinstance(t.op, ast.And)) else [t]
+                extra = [norm(t) for t in parts if 'postlex' not in norm(t)]
+                ok = not extra
+                res.ob('%s %s' % (f.module.loc(c), f.qual), 'the post-lexer is applied whenever there is one (conditions: %s)' % [norm(t) for t, _ in conds], ok)
+                if not ok:
+                    res.finding(f, enclosing_stmt(c), 'the post-lexer is skipped under %s: that stream reaches the caller without INDENT/DEDENT '
+                                '(and with the newlines inside brackets)' % extra, construct='postlex-skipped')
+    res.require_instances(n_apply, 2, 'sites applying the post-lexer')
     return res
 
 
